@@ -72,7 +72,8 @@ Live == {"Opening", "Open"}
 DevNames == {"DevKeyedByStreamIdOnly", "DevCounterNotDecrementedOnErr", "DevCloseTwiceNotifiesTwice",
              "DevIdleCleanupKeepsRecord", "DevDatagramAfterClose", "DevLimitCheckThenAct",
              "DevReplyToWrongAssociation", "DevCloseNotifiesWrongPeer", "DevErrKeepsSocket",
-             "DevEmitAfterCloseInClear"}
+             "DevEmitAfterCloseInClear", "DevRemoveKeepsRequestIndex", "DevCloseAnsweredWithClose",
+             "DevDatagramDoesNotRefreshActivity"}
 ASSUME Dev \subseteq DevNames /\ Slots \subseteq AllSlots /\ FullSlots \subseteq Slots /\ GoneP \subseteq Peers /\ Kind \in {"udp", "icmp"} /\ Max > 0
 
 ById == "DevKeyedByStreamIdOnly" \in Dev
@@ -85,12 +86,14 @@ VARIABLES enabled, hup, peerUp, tab, byreq, obj, sock, rl, exp, pend, enc,
           ndg, nerr,                           \* budgets
           infl,                                \* the return path holds a datagram read from the socket (Split)
           clear,                               \* frames that carried a datagram in clear although the session is "enc"
+          leak,                                \* sockets that belong to no session object any more and are still open
           life, why,                           \* ghosts
+          fresh,                               \* ghost: the session relayed / was opened since the last IdleTick
           last
 
-aux == <<infl, clear>>
+aux == <<infl, clear, leak>>
 core == <<enabled, hup, peerUp, tab, byreq, obj, sock, rl, exp, pend, enc, ackN, errN, closeN, din, dout, ndg, nerr, aux>>
-ghost == <<life, why>>
+ghost == <<life, why, fresh>>
 vars == <<core, ghost, last>>
 view == <<core, ghost>>
 
@@ -101,8 +104,8 @@ Init ==
   /\ tab = [k \in Keys |-> NoSlot] /\ byreq = Fn(FALSE) /\ obj = Fn("None") /\ sock = Fn(FALSE) /\ rl = Fn(FALSE)
   /\ exp = Fn(FALSE) /\ pend = Fn(FALSE) /\ enc = Fn(FALSE)
   /\ ackN = Fn(0) /\ errN = Fn(0) /\ closeN = Fn(0) /\ din = Fn(0) /\ dout = Fn(0) /\ ndg = 0 /\ nerr = 0
-  /\ infl = Fn(FALSE) /\ clear = 0
-  /\ life = Fn("None") /\ why = Fn("-")
+  /\ infl = Fn(FALSE) /\ clear = 0 /\ leak = 0
+  /\ life = Fn("None") /\ why = Fn("-") /\ fresh = Fn(FALSE)
   /\ last = [act |-> "Init"]
 
 Count == Cardinality({k \in Keys : tab[k] # NoSlot})
@@ -112,7 +115,7 @@ CanSend(s) == hup /\ peerUp[Owner[s]]   \* the environment: the owner peer can s
 \* removeAssociation(key of s) + Association.Close of the object found there
 RemoveAt(s, f) ==
   /\ tab' = [tab EXCEPT ![Key(s)] = NoSlot]
-  /\ byreq' = [byreq EXCEPT ![f] = FALSE]
+  /\ byreq' = IF "DevRemoveKeepsRequestIndex" \in Dev THEN byreq ELSE [byreq EXCEPT ![f] = FALSE]
   /\ obj' = [obj EXCEPT ![f] = "Closed"]
   /\ sock' = [sock EXCEPT ![f] = FALSE]
   /\ rl' = [rl EXCEPT ![f] = FALSE]
@@ -124,8 +127,9 @@ OpenFail(s, m, res) ==
   /\ nerr < MaxErr /\ nerr' = nerr + 1
   /\ errN' = [errN EXCEPT ![s] = @ + 1]
   \* DevErrKeepsSocket: the key-exchange error path forgets to close the socket it created
-  /\ sock' = IF "DevErrKeepsSocket" \in Dev /\ res = "err-badkey" THEN [sock EXCEPT ![s] = TRUE] ELSE sock
-  /\ UNCHANGED <<aux, enabled, hup, peerUp, tab, byreq, obj, rl, exp, pend, enc, ackN, closeN, din, dout, ndg, ghost>>
+  /\ leak' = IF "DevErrKeepsSocket" \in Dev /\ res = "err-badkey" THEN leak + 1 ELSE leak
+  /\ UNCHANGED <<infl, clear, enabled, hup, peerUp, tab, byreq, obj, sock, rl, exp, pend, enc, ackN, closeN, din, dout, ndg,
+                 ghost>>
   /\ last' = Act("OpenBegin", s, m, res)
 
 OpenBegin(s, m) ==
@@ -140,7 +144,7 @@ OpenBegin(s, m) ==
           /\ obj' = [obj EXCEPT ![s] = "Opening"] /\ sock' = [sock EXCEPT ![s] = TRUE]
           /\ exp' = [exp EXCEPT ![s] = FALSE] /\ pend' = [pend EXCEPT ![s] = TRUE]
           /\ enc' = [enc EXCEPT ![s] = (m = "enc")]
-          /\ life' = [life EXCEPT ![s] = "Opening"]
+          /\ life' = [life EXCEPT ![s] = "Opening"] /\ fresh' = [fresh EXCEPT ![s] = TRUE]
           /\ UNCHANGED <<aux, enabled, hup, peerUp, rl, ackN, errN, closeN, din, dout, ndg, nerr, why>>
           /\ last' = Act("OpenBegin", s, m, "pending")
 
@@ -153,10 +157,11 @@ OpenAck(s) ==
             /\ exp' = [exp EXCEPT ![s] = IF obj[s] = "Opening" THEN FALSE ELSE @]
             /\ rl' = [rl EXCEPT ![s] = Kind = "udp" /\ sock[s] /\ hup]             \* read loop (exits when closed)
             /\ life' = [life EXCEPT ![s] = IF @ = "Opening" THEN "Open" ELSE @]
+            /\ fresh' = [fresh EXCEPT ![s] = @ \/ obj[s] = "Opening"]
             /\ UNCHANGED <<tab, byreq, sock, why>>
             /\ last' = Act("OpenAck", s, "-", "ok")
        ELSE \* the write fails: removeAssociation(streamID)
-            /\ UNCHANGED <<ackN, exp>>
+            /\ UNCHANGED <<ackN, exp, fresh>>
             /\ life' = [life EXCEPT ![s] = IF @ \in Live THEN "Closed" ELSE @]
             /\ why' = [why EXCEPT ![s] = IF life[s] \in Live THEN "ackfail" ELSE @]
             /\ IF Look(s) = NoSlot \/ "DevCounterNotDecrementedOnErr" \in Dev
@@ -182,11 +187,13 @@ DgIn(s, rep) ==
               THEN \* the closed object is still used (stale reference, socket not shut)
                    /\ din' = [din EXCEPT ![s] = @ + 1]
                    /\ dout' = IF rep THEN [dout EXCEPT ![s] = @ + 1] ELSE dout
-                   /\ UNCHANGED <<exp, infl>>
+                   /\ UNCHANGED <<exp, infl, fresh>>
                    /\ last' = Act("DgIn", s, IF rep THEN "rep" ELSE "-", "ok")
-              ELSE /\ UNCHANGED <<din, dout, exp, infl>>
+              ELSE /\ UNCHANGED <<din, dout, exp, infl, fresh>>
                    /\ last' = Act("DgIn", s, IF rep THEN "rep" ELSE "-", "unknown")
-       ELSE /\ exp' = [exp EXCEPT ![f] = FALSE]                   \* UpdateActivity precedes Decrypt
+       ELSE /\ exp' = IF "DevDatagramDoesNotRefreshActivity" \in Dev THEN exp
+                    ELSE [exp EXCEPT ![f] = FALSE]                  \* UpdateActivity precedes Decrypt
+            /\ fresh' = [fresh EXCEPT ![f] = TRUE]
             /\ IF f = s \/ ~enc[f]
                  THEN /\ din' = [din EXCEPT ![f] = @ + 1]
                       /\ Reply(f, rep)
@@ -194,7 +201,7 @@ DgIn(s, rep) ==
                  ELSE \* another slot's object (bare-id keying): the ciphertext does not authenticate
                       /\ UNCHANGED <<din, dout, infl>>
                       /\ last' = Act("DgIn", s, IF rep THEN "rep" ELSE "-", "err-decrypt")
-  /\ UNCHANGED <<enabled, hup, peerUp, tab, byreq, obj, sock, rl, pend, enc, ackN, errN, closeN, nerr, clear, ghost>>
+  /\ UNCHANGED <<enabled, hup, peerUp, tab, byreq, obj, sock, rl, pend, enc, ackN, errN, closeN, nerr, clear, leak, life, why>>
 
 (* ---- udp: a datagram arrives at the session's socket ------------------------ *)
 DgOut(s) ==
@@ -206,23 +213,24 @@ DgOut(s) ==
        THEN LET x == IF "DevReplyToWrongAssociation" \in Dev /\ \E y \in Slots : y # s /\ obj[y] = "Open"
                        THEN CHOOSE y \in Slots : y # s /\ obj[y] = "Open" ELSE s IN
             /\ dout' = [dout EXCEPT ![x] = @ + 1]
-            /\ exp' = [exp EXCEPT ![s] = FALSE]
+            /\ exp' = IF "DevDatagramDoesNotRefreshActivity" \in Dev THEN exp ELSE [exp EXCEPT ![s] = FALSE]
+            /\ fresh' = [fresh EXCEPT ![s] = TRUE]
             /\ last' = Act("DgOut", s, "-", "relayed")
        ELSE IF "DevDatagramAfterClose" \in Dev /\ obj[s] = "Closed"
-         THEN /\ dout' = [dout EXCEPT ![s] = @ + 1] /\ UNCHANGED exp
+         THEN /\ dout' = [dout EXCEPT ![s] = @ + 1] /\ UNCHANGED <<exp, fresh>>
               /\ last' = Act("DgOut", s, "-", "relayed")
-         ELSE /\ UNCHANGED <<dout, exp>>
+         ELSE /\ UNCHANGED <<dout, exp, fresh>>
               /\ last' = Act("DgOut", s, "-", "dropped")
-  /\ UNCHANGED <<aux, enabled, hup, peerUp, tab, byreq, obj, sock, rl, pend, enc, ackN, errN, closeN, din, nerr, ghost>>
+  /\ UNCHANGED <<aux, enabled, hup, peerUp, tab, byreq, obj, sock, rl, pend, enc, ackN, errN, closeN, din, nerr, life, why>>
 
 (* ---- the return path as two steps (Split) ----------------------------------- *)
 \* udp read loop: ReadFromUDP returns a datagram (UpdateActivity follows at once)
 DgArrive(s) ==
   /\ Split /\ Kind = "udp" /\ s \in FullSlots /\ ndg < MaxDg /\ ndg' = ndg + 1
   /\ sock[s] /\ rl[s] /\ ~infl[s]
-  /\ infl' = [infl EXCEPT ![s] = TRUE] /\ exp' = [exp EXCEPT ![s] = FALSE]
-  /\ UNCHANGED <<clear, enabled, hup, peerUp, tab, byreq, obj, sock, rl, pend, enc, ackN, errN, closeN, din, dout, nerr,
-                 ghost>>
+  /\ infl' = [infl EXCEPT ![s] = TRUE] /\ exp' = [exp EXCEPT ![s] = FALSE] /\ fresh' = [fresh EXCEPT ![s] = TRUE]
+  /\ UNCHANGED <<clear, leak, enabled, hup, peerUp, tab, byreq, obj, sock, rl, pend, enc, ackN, errN, closeN, din, dout, nerr,
+                 life, why>>
   /\ last' = Act("DgArrive", s, "-", "ok")
 
 \* Encrypt + WriteDatagram / WriteEcho.  The session may have been closed in between: its key is gone.  Ideal: nothing
@@ -239,14 +247,16 @@ DgEmit(s) ==
               /\ last' = Act("DgEmit", s, "-", "relayed-after-close")
          ELSE /\ UNCHANGED <<dout, clear>>
               /\ last' = Act("DgEmit", s, "-", "dropped")
-  /\ UNCHANGED <<enabled, hup, peerUp, tab, byreq, obj, sock, rl, exp, pend, enc, ackN, errN, closeN, din, ndg, nerr, ghost>>
+  /\ UNCHANGED <<leak, enabled, hup, peerUp, tab, byreq, obj, sock, rl, exp, pend, enc, ackN, errN, closeN, din, ndg, nerr,
+                 ghost>>
 
 (* ---- time ------------------------------------------------------------------- *)
 IdleTick ==
   /\ hup
   /\ exp' = [s \in Slots |-> exp[s] \/ obj[s] \in Live]
+  /\ fresh' = Fn(FALSE)
   /\ UNCHANGED <<aux, enabled, hup, peerUp, tab, byreq, obj, sock, rl, pend, enc, ackN, errN, closeN, din, dout, ndg, nerr,
-                 ghost>>
+                 life, why>>
   /\ last' = Act("IdleTick", "-", "-", "ok")
 
 \* cleanupExpired(): the registered sessions that are expired
@@ -268,6 +278,7 @@ Cleanup ==
      /\ rl' = [s \in Slots |-> rl[s] /\ s \notin X]
      /\ life' = [s \in Slots |-> IF life[s] \in Live /\ exp[s] THEN "Closed" ELSE life[s]]
      /\ why' = [s \in Slots |-> IF life[s] \in Live /\ exp[s] THEN "idle" ELSE why[s]]
+     /\ UNCHANGED fresh
      /\ last' = Act("Cleanup", "-", "-", IF X = {} THEN "none" ELSE "closed")
   /\ UNCHANGED <<aux, enabled, hup, peerUp, exp, pend, enc, ackN, errN, din, dout, ndg, nerr>>
 
@@ -276,12 +287,15 @@ CloseFromPeer(s) ==
   /\ CanSend(s)
   /\ life' = [life EXCEPT ![s] = IF @ \in Live THEN "Closed" ELSE @]
   /\ why' = [why EXCEPT ![s] = IF life[s] \in Live THEN "peer" ELSE @]
+  /\ UNCHANGED fresh
   /\ IF Look(s) = NoSlot
-       THEN /\ UNCHANGED <<tab, byreq, obj, sock, rl>>
+       THEN /\ UNCHANGED <<tab, byreq, obj, sock, rl, closeN>>
             /\ last' = Act("CloseFromPeer", s, "-", "noop")
        ELSE /\ RemoveAt(s, Look(s))
+            \* DevCloseAnsweredWithClose: the peer's CLOSE is echoed back to the owner of the session
+            /\ closeN' = IF "DevCloseAnsweredWithClose" \in Dev THEN [closeN EXCEPT ![Look(s)] = @ + 1] ELSE closeN
             /\ last' = Act("CloseFromPeer", s, "-", "ok")
-  /\ UNCHANGED <<aux, enabled, hup, peerUp, exp, pend, enc, ackN, errN, closeN, din, dout, ndg, nerr>>
+  /\ UNCHANGED <<aux, enabled, hup, peerUp, exp, pend, enc, ackN, errN, din, dout, ndg, nerr>>
 
 (* ---- Handler.Close ---------------------------------------------------------- *)
 HandlerClose ==
@@ -293,6 +307,7 @@ HandlerClose ==
      /\ rl' = Fn(FALSE)                                     \* every read loop ends with the handler's context
   /\ life' = [s \in Slots |-> IF life[s] \in Live THEN "Closed" ELSE life[s]]
   /\ why' = [s \in Slots |-> IF life[s] \in Live THEN "handler" ELSE why[s]]
+  /\ UNCHANGED fresh
   /\ UNCHANGED <<aux, enabled, peerUp, exp, pend, enc, ackN, errN, closeN, din, dout, ndg, nerr>>
   /\ last' = Act("HandlerClose", "-", "-", "ok")
 
@@ -323,13 +338,14 @@ CountMatches ==
 \* a live session has exactly one record (found under its own key), one index entry, one open socket, an object in
 \* the matching state; a session that is not live has none of them
 OneRecordOneSocket ==
-  \A s \in Slots :
-    /\ (life[s] \in Live) = (Look(s) = s)
-    /\ (life[s] \in Live) = byreq[s]
-    /\ (life[s] \in Live) = sock[s]
-    /\ (life[s] \in Live) = (obj[s] \in Live)
-    /\ (life[s] = "Open") = (obj[s] = "Open")
-    /\ rl[s] => sock[s]
+  /\ \A s \in Slots :
+       /\ (life[s] \in Live) = (Look(s) = s)
+       /\ (life[s] \in Live) = byreq[s]
+       /\ (life[s] \in Live) = sock[s]
+       /\ (life[s] \in Live) = (obj[s] \in Live)
+       /\ (life[s] = "Open") = (obj[s] = "Open")
+       /\ rl[s] => sock[s]
+  /\ leak = 0
 
 \* every history that ends with all sessions closed / expired leaves the handler empty
 QuiescentEmpty ==
@@ -348,6 +364,9 @@ OpenAnswered ==
 NoRelayUnlessLive ==
   [][\A s \in Slots : (din'[s] > din[s] \/ dout'[s] > dout[s]) => life[s] \in Live]_vars
 
+\* traffic keeps a session alive: a session that relayed a datagram (or was opened) since time last passed is not expired
+FreshNotExpired == \A s \in Slots : fresh[s] /\ life[s] \in Live => ~exp[s]
+
 \* a datagram relayed towards the peer is always encrypted under the session's key
 NoClearText == clear = 0
 
@@ -357,7 +376,7 @@ ReplyToRequester ==
         => \A x \in Slots \ {s} : din'[x] = din[x] /\ dout'[x] = dout[x]]_vars
 
 State == [enabled |-> enabled, hup |-> hup, peerUp |-> peerUp, look |-> [s \in Slots |-> Look(s)], byreq |-> byreq,
-          obj |-> obj, sock |-> sock, nsock |-> Cardinality({s \in Slots : sock[s]}), rl |-> rl, exp |-> exp, pend |-> pend, enc |-> enc, count |-> Count,
+          obj |-> obj, sock |-> sock, nsock |-> Cardinality({s \in Slots : sock[s]}) + leak, rl |-> rl, exp |-> exp, pend |-> pend, enc |-> enc, count |-> Count,
           ackN |-> ackN, errN |-> errN, closeN |-> closeN, din |-> din, dout |-> dout, ndg |-> ndg, nerr |-> nerr,
           life |-> life, why |-> why]
 EmitEdge == Emit => PrintT("EDGE " \o ToJson([s |-> State, a |-> last', t |-> State']))
